@@ -230,6 +230,8 @@ func confirms(v *replayFile, outcome string) bool {
 		return strings.HasPrefix(outcome, "outcome=panic") || strings.HasPrefix(outcome, "outcome=crash")
 	case "unwind":
 		return strings.HasPrefix(outcome, "outcome=timeout")
+	case "deadlock":
+		return strings.HasPrefix(outcome, "outcome=timeout") || strings.HasPrefix(outcome, "outcome=crash")
 	case "lock-held":
 		return strings.HasPrefix(outcome, "outcome=timeout") || strings.HasPrefix(outcome, "outcome=crash")
 	}
